@@ -52,6 +52,19 @@ def cases(rng, tier):
              "k0": 0, "t0": 0, "dt": 0.5, "runs": 2}
         out.append({"id": f"s{k}", "family": "fortran", "method": m, "tag": "fortran-two-results",
                     "variants": ["plain", "perm1", "perm2", "perm3", "after-other"]})
+    # hand-made: neighbouring methods whose constants are equal in value but differ in Python type (2 and 2.0):
+    # a cache keyed by the VALUE makes the text depend on which method the process saw first (odd workers see
+    # the cases in the opposite order)
+    for k, n in enumerate((2, 3, 0, 4, -1, 1)):
+        for kind, const in (("i", ["c", n]), ("f", ["cf", repr(float(n))])):
+            prog = [["stmt", ["call", ["k1"], "<func>rhs", [V("<t>"), V("<state>y")], []]],
+                    ["stmt", ["assign", "<p>k", None, ["+", [V("<p>k"), const]], []]],
+                    ["stmt", ["assign", "<state>y", None, ["+", [V("<state>y"), ["*", [const, V("k1")]]]], []]],
+                    ["stmt", ["yield", V("<state>y"), V("<t>"), "final", "y"]]]
+            m = {"phases": [{"name": "p0", "next": "p0", "prog": prog}], "initial": "p0", "y0": [1, 2, -1], "exact": False,
+                 "k0": 0, "t0": 0, "dt": 0.5, "runs": 2}
+            out.append({"id": f"t{k}{kind}", "family": "fortran", "method": m, "tag": "fortran-twin-constants",
+                        "variants": ["plain", "after-other"]})
     for k in range(n_p):
         c = c01.g_case(rng)
         c.update({"id": f"p{k}", "family": "python", "tag": "python-family",
